@@ -35,6 +35,9 @@ fn limits_text(rows: usize) -> String {
     for k in 0..rows {
         s += &format!("Max thing {k}                  {}            unlimited            bytes     \n", k * 10);
     }
+    // names that differ only in case: an ordering that folds case leaves them in hash order
+    s += "MAX THING 3                  1            2            bytes     \n";
+    s += "max thing 3                  3            4            bytes     \n";
     s
 }
 
@@ -391,8 +394,45 @@ fn delay_vectors(inp: &Input, k: usize, n: usize, l: &mut Local) {
 }
 
 /// labelled sampling: fresh hash seeds per run, and a free-running multi-threaded runtime
+/// a 32-bit process state, to be printed before a 64-bit one on the same (fresh) thread
+fn x86_state() -> ProcessState {
+    use vh::procgen::{self, CpuK, Model, ThreadM};
+    let mut m = Model::new(CpuK::X86, 2);
+    m.threads = vec![ThreadM { tid: 1, ctx_ok: true, ip: 0x4000_1000, sp: procgen::STACK_BASE + 8 }];
+    m.modules = vec![procgen::app_module()];
+    match procgen::process_model(&m) {
+        procgen::Proc::Ok(s) => *s,
+        _ => panic!("c13: the x86 helper dump does not process"),
+    }
+}
+
 fn repeated_runs(inp: &Input, reps: usize, l: &mut Local) {
     let reference = reference_output(inp);
+    // history independence: on a FRESH thread print a 32-bit report first, then this input's reports
+    {
+        let inp2 = inp.clone();
+        let got = std::thread::spawn(move || {
+            let st32 = x86_state();
+            let _ = render(&st32);
+            let dump = Minidump::read(&inp2.dump[..]).expect("dump");
+            let p = Symbolizer::new(DelaySup { syms: inp2.syms.clone(), delays: vec![0], calls: Mutex::new(0) });
+            let st = block_on(process_minidump(&dump, &p)).expect("process");
+            let first = render(&st);
+            // and the 32-bit report again afterwards must still be what it was
+            let again = render(&st32);
+            (first, again == render(&x86_state()))
+        })
+        .join()
+        .expect("c13: helper thread");
+        l.eval();
+        if got.0 != reference {
+            let (sig, what) = describe_difference(&reference, &got.0);
+            l.violation(format!("c13:nondeterministic-output:depends-on-earlier-reports:{sig}"), format!("the report differs when a 32-bit report was printed earlier on the same thread: {what}"), json!({"input": inp.name}));
+        }
+        if !got.1 {
+            l.violation("c13:nondeterministic-output:depends-on-earlier-reports:32-bit-report", "a 32-bit report printed after a 64-bit one differs from the same report printed first", json!({"input": inp.name}));
+        }
+    }
     let dump = Minidump::read(&inp.dump[..]).expect("dump");
     let mt = tokio::runtime::Builder::new_multi_thread().worker_threads(4).build().expect("runtime");
     let mut distinct = std::collections::HashSet::new();
